@@ -44,17 +44,19 @@ Note(cur, name, ok) == IF cur = "none" /\ ~ok THEN name ELSE cur
 \* --------------------------------------------------------------------------
 \* declarative expectations on the final font, stated on the SOURCE
 \* --------------------------------------------------------------------------
-Exported == (DOMAIN T.src) \ Skip
+\* declared source: the default layer plus (colour fonts) the alternates '<glyph>.<layer>' the source's colour layers define
+FSrc == IF Has(T, "srcExtra") THEN T.srcExtra @@ T.src ELSE T.src
+Exported == (DOMAIN FSrc) \ Skip
 TolS == T.opts.tolS
 
 CffGlyphOK(n) ==
   /\ n \in DOMAIN T.ret.outline
-  /\ IF Skip = {} THEN OutlineMatches(ExpCFF(T.src, n), T.ret.outline[n], TolS)
-     ELSE OutlineMatchesBag(ExpCFF(T.src, n), T.ret.outline[n], TolS)
-AdvOK(n) == n \in DOMAIN T.ret.adv /\ T.ret.adv[n] = OtRound(T.src[n].w, PS)
+  /\ IF Skip = {} THEN OutlineMatches(ExpCFF(FSrc, n), T.ret.outline[n], TolS)
+     ELSE OutlineMatchesBag(ExpCFF(FSrc, n), T.ret.outline[n], TolS)
+AdvOK(n) == n \in DOMAIN T.ret.adv /\ T.ret.adv[n] = OtRound(FSrc[n].w, PS)
 
 \* TrueType: expected pre-processed glyph set, computed declaratively from the source
-S1 == SkipExportSet(T.src, Skip)
+S1 == SkipExportSet(FSrc, Skip)
 S2 == [n \in DOMAIN S1 |-> IF IsMixed(S1[n]) THEN DecomposeGlyph(S1, n) ELSE S1[n]]
 S3 == IF T.opts.flatten THEN [n \in DOMAIN S2 |-> IF HasComps(S2[n]) THEN FlattenGlyph(S2, n) ELSE S2[n]] ELSE S2
 
